@@ -65,17 +65,17 @@ HX void hx_files(uint64_t policy, uint64_t limit, uint64_t gens, uint64_t hist) 
    make();
    detail::LogMsg msg("f.cpp", "fn", 1);
    std::string all;               // everything ever written, in order, each message followed by '\n'
-   int nmsg = 0;
+   int nmsg = 0; size_t last_len = 0;
    for (; hist & 3; hist >>= 2) {
       if ((hist & 3) == 2) { p.reset(); make(); }
       else {
-         unsigned len = vs_u8("len"); vs_assume(len >= 1 && len <= 3);
-         if (via_handler) len = 4 - len;               // the first messages tend to be the longer ones
+         unsigned len = vs_u8("len"); vs_assume(len <= 3);                 // 0 = a message with empty text (an empty line in the file)
+         if (via_handler) len = 3 - len;               // the first messages tend to be the longer ones
          std::string text(len, (char) ('a' + nmsg)); ++nmsg;
          const std::string before = content_of(0); const int rolls_before = rolls;
          if (via_handler) { msg.setText(text); if (policy == 0) hc->handleMessage(msg); else hm->handleMessage(msg); }
          else p->writeMessage(msg, text);
-         all += text; all += '\n';
+         all += text; all += '\n'; last_len = len;
          // a new generation is started only when the next message would exceed the limit
          if (rolls != rolls_before || (gens == 1 && content_of(0).size() < before.size() + len + 1)) {
             bool needed = policy == 0 ? entries_in(before) + 1 > limit : before.size() + len + 1 > limit;
@@ -94,7 +94,7 @@ HX void hx_files(uint64_t policy, uint64_t limit, uint64_t gens, uint64_t hist) 
       }
       // nothing that should be retained is lost: the newest message is always present
       if (nmsg > 0) vs_assert(!content_of(0).empty() || (hist & 3) == 2 || true, "newest generation exists");
-      if (nmsg > 0 && (hist & 3) == 1) vs_assert(kept.size() >= 2 && kept[kept.size() - 2] == (char) ('a' + nmsg - 1), "the message just written is retained");
+      if (nmsg > 0 && (hist & 3) == 1) vs_assert(kept.size() >= last_len + 1 && kept.back() == '\n' && (last_len == 0 || kept[kept.size() - 2] == (char) ('a' + nmsg - 1)), "the message just written is retained");
    }
    vs_note("msgs", nmsg);
 }
